@@ -155,6 +155,49 @@ Theorem C03_early_end_copies_reference : forall o last rp running0 r0 hdr fmt w 
        at_ (d_cb pic) x y = at_ (d_cb rp) x y /\ at_ (d_cr pic) x y = at_ (d_cr rp) x y).
 Proof. exact reconstruct_predicted_early_copies. Qed.
 
+(* non-vacuity: a 16x32 Sorenson predicted picture (two macroblocks) whose data ends after the first, not-coded macroblock;
+   reference planes constant 7 / 9 / 11 *)
+Definition ex_hdr := mkSor 0 5 (SzCustom8 16 32) 1 false 10 [].
+Definition ex_plane (w h v : Z) : plane := mkPlane w (repeatZ (repeatZ v w) h).
+Definition ex_rp : decoded_picture :=
+  mkDecoded (picture_of_sorenson (mkSor 0 4 (SzCustom8 16 32) 0 false 10 [])) (Extended Square 16 32)
+            (ex_plane 16 32 7) (ex_plane 8 16 9) (ex_plane 8 16 11) 8.
+
+Example C03_early_end_example :
+  exists pic pos',
+    reconstruct (mkOpts true false) None (Some ex_rp) 0 (mkReader (enc_sorenson ex_hdr ++ enc_fulls false false [FUncoded] ++ []) 0) = Ok (pic, mkReader [] pos') /\
+    at_ (d_luma pic) 3 20 = 7 /\ at_ (d_cb pic) 2 9 = 9 /\ at_ (d_cr pic) 7 15 = 11.
+Proof.
+  set (o := mkOpts true false). set (hdr := picture_of_sorenson ex_hdr).
+  set (np := mkDecoded hdr (Extended Square 16 32) (new_plane 16 32) (new_plane 8 16) (new_plane 8 16) 8).
+  set (st0 := mkLoop (mkReader (enc_fulls false false [FUncoded] ++ []) 58) (quantizer hdr) [] []
+                (repeatZ DctZero 8) (repeatZ DctZero 2) (repeatZ DctZero 2)).
+  destruct (reconstruct_predicted_early_copies o None ex_rp 0 (mkReader (enc_sorenson ex_hdr ++ enc_fulls false false [FUncoded] ++ []) 0)
+              hdr (Extended Square 16 32) 16 32 [FUncoded] [] 58 (push st0 mv4_zero Inter))
+    as (pic & pos' & E & _ & _ & _ & _ & AL & AC).
+  - vm_compute. reflexivity.
+  - left. reflexivity.
+  - reflexivity.
+  - reflexivity.
+  - lia.
+  - lia.
+  - repeat split; vm_compute; auto.
+  - reflexivity.
+  - vm_compute. repeat split; repeat constructor.
+  - vm_compute. repeat split; repeat constructor.
+  - vm_compute. repeat split; repeat constructor.
+  - reflexivity.
+  - repeat constructor.
+  - vm_compute. repeat split; reflexivity.
+  - exists 0%nat. split; [lia|reflexivity].
+  - vm_compute. reflexivity.
+  - exists pic, pos'. split; [exact E|].
+    destruct (AC 2 9 ltac:(lia) ltac:(lia) ltac:(vm_compute; discriminate)) as [C1 _].
+    destruct (AC 7 15 ltac:(lia) ltac:(lia) ltac:(vm_compute; discriminate)) as [_ C2].
+    rewrite (AL 3 20 ltac:(lia) ltac:(lia) ltac:(vm_compute; discriminate)), C1, C2.
+    split; [|split]; vm_compute; reflexivity.
+Qed.
+
 (* the macroblock loop itself at an early end: it returns exactly what the macroblocks present produce and leaves the padding *)
 Theorem C03_early_end_loop : forall o np running mpl total levw pad,
   let ipic := is_iframe (picture_type (d_header np)) in
